@@ -221,7 +221,6 @@ template <class T, sz N> void bit_strings_case(char const *tn)
   auto const r = fv::bit_strings<T, N>();
   // documented order: entry k has component i equal to bit i of k
   std::size_t const count = std::size_t{1} << N;
-  static_assert(sizeof(r) == sizeof(T) * N * (std::size_t{1} << N));
   for (std::size_t k = 0; k < count; ++k)
   {
     rvec<N> want;
